@@ -42,6 +42,7 @@ func runC13(run *Run, replay string) {
 	}
 	ctx := context.Background()
 	forConditionTokensOracle(run, bases*3)
+	conditionalBranchTokensOracle(run, bases*3)
 	for bi := 0; bi < bases; bi++ {
 		r := rand.New(rand.NewSource(subSeed(run.Res.Seed, bi)))
 		opts := ScenarioOpts{Histories: hist, Inject: bi%3 == 1, Gen: GenOpts{Degenerate: bi%7 == 6, DynFocus: bi%8 == 3}}
